@@ -73,6 +73,86 @@ func checkC13(c *Ctx) {
 	// C13.4 / C13.5 pruning
 	c13Prune(c, prune)
 
+	// C13.7 Get: every presence test of the store decides the answer
+	if get := p.Method("security/blockchain", "Blockchain", "Get"); get != nil {
+		k := NewKeyer(p, get)
+		n := 0
+		eachInstr(get, func(in ssa.Instruction) {
+			lk, ok := in.(*ssa.Lookup)
+			if !ok || !lk.CommaOk || !strings.HasSuffix(k.Key(lk.X), "Blockchain.blocks") {
+				return
+			}
+			n++
+			// the outcome (block, ok) must reach a branch condition or a return of Get, through phis / spills only
+			decides := map[int]bool{}
+			if lk.Referrers() != nil {
+				for _, r := range *lk.Referrers() {
+					ex, ok := r.(*ssa.Extract)
+					if !ok {
+						continue
+					}
+					seen := map[ssa.Value]bool{}
+					var walk func(v ssa.Value)
+					walk = func(v ssa.Value) {
+						if seen[v] || v.Referrers() == nil {
+							return
+						}
+						seen[v] = true
+						for _, u := range *v.Referrers() {
+							switch x := u.(type) {
+							case *ssa.If, *ssa.Return:
+								decides[ex.Index] = true
+							case *ssa.Phi:
+								walk(x)
+							case *ssa.UnOp:
+								walk(x)
+							case *ssa.Store:
+								if x.Val == v {
+									if a, ok := x.Addr.(*ssa.Alloc); ok {
+										walk(a)
+									}
+								}
+							}
+						}
+					}
+					walk(ex)
+				}
+			}
+			c.Check(decides[0] && decides[1], "C13.7", "Get: a presence test of the store decides the answer", p.InstrPos(in),
+				"the looked-up block and its presence flag both flow into Get's result / result branch",
+				"the outcome of this lookup of blocks[hash] does not reach Get's result (block used: "+boolStr(decides[0])+", presence used: "+boolStr(decides[1])+"): a block that is in the store is reported as missing, so Extends denies a real ancestor")
+		})
+		if n < 2 {
+			c.Unresolved("C13.7", "Get", "expected the lookup before the fetch and the re-check after a failed fetch; found "+itoa(n))
+		}
+	} else {
+		c.Unresolved("C13.7", "Blockchain.Get", "anchor missing")
+	}
+	// C13.8 commit: abandoned blocks are computed only after the whole chain up to the block was committed
+	if cm := p.Method("protocol/consensus", "Committer", "commit"); cm != nil {
+		fl := NewFlow(p, cm)
+		inner := p.Method("protocol/consensus", "Committer", "commitInner")
+		var innerKey string
+		for _, s := range callsIn(cm, false, func(cc *ssa.CallCommon) bool { return calleeIs(cc, inner) }) {
+			if v, ok := s.(ssa.Value); ok {
+				innerKey = fl.K.Key(v)
+			}
+		}
+		n := 0
+		for _, s := range callsIn(cm, false, func(cc *ssa.CallCommon) bool { return calleeIs(cc, prune) }) {
+			n++
+			ok := innerKey != "" && errNilOf(fl.At(s), is(innerKey))
+			c.Check(ok, "C13.8", "Committer.commit: pruning follows a successful commit of the chain", p.Pos(s.Pos()),
+				"PruneToHeight(committed, block.View()) is reached only under commitInner(...) == nil",
+				"PruneToHeight is reachable after commitInner failed: nothing up to block.View() was committed, yet the blocks on that chain are reported as abandoned (aborted to their clients) and are committed later")
+		}
+		if n == 0 {
+			c.Unresolved("C13.8", "Committer.commit", "no PruneToHeight call")
+		}
+	} else {
+		c.Unresolved("C13.8", "Committer.commit", "anchor missing")
+	}
+
 	// Extends polarity
 	{
 		fl := NewFlow(p, ext)
